@@ -357,6 +357,19 @@ async def _mqtt(sc: dict) -> dict:
             pending.append(call(nbytes))
         await asyncio.gather(*pending, return_exceptions=True)
 
+    # what the broker says meanwhile (nothing of it is a reason to write more): the gateway's retained status message
+    # once more (ramses_esp rebooted / paho re-subscribed), and inbound traffic on the /rx topic
+    def broker(what: str) -> None:
+        if what == "online":
+            t._on_message(t.client, None, _Msg(f"RAMSES/GATEWAY/{GWY}", b"online"))
+        elif what == "rx":
+            body = json.dumps({"msg": "045  I --- 01:145038 --:------ 01:145038 1F09 003 FF0532",
+                               "ts": "2026-01-01T12:00:00.000000+00:00"})
+            t._on_message(t.client, None, _Msg(f"RAMSES/GATEWAY/{GWY}/rx", body.encode()))
+
+    for when_tick, what in sc.get("broker", []):
+        loop.call_at((zero + when_tick) * TICK, broker, what)
+
     clients = [loop.create_task(open_loop(sorted(sc["calls"], key=lambda c: c[0])))] if sc.get("calls") else []
     clients += [loop.create_task(client(c[0], c[1])) for c in sc.get("clients", [])]
     await asyncio.wait(clients, timeout=sc.get("timeout_s", 36000))
